@@ -188,3 +188,45 @@ func (w *C03World) C03ClientReceive(id device.ID, n *com.Packet) error {
 	}
 	return receive(s, nil, n)
 }
+
+// ---- a client Session that hosts a Proxy with registered proxied clients (receiver)
+
+// C03Host is a client-side Session with an active Proxy; packets for the host go to the
+// recording mux of the world, packets for a proxied device to that device's queue.
+type C03Host struct {
+	w   *C03World
+	s   *Session
+	ids []device.ID
+	pcs []*proxyClient
+}
+
+func C03NewHost(host device.ID, proxied []device.ID) *C03Host {
+	w := &C03World{}
+	s := &Session{
+		ID: host, jobs: make(map[uint16]*Job), send: make(chan *com.Packet, 128), wake: make(chan struct{}, 1),
+		frags: make(map[uint16]*cluster), ch: make(chan struct{}), connection: connection{m: &c03Mux{w}},
+	}
+	w.ses = append(w.ses, s)
+	p := &Proxy{clients: make(map[uint32]*proxyClient, len(proxied))}
+	h := &C03Host{w: w, s: s, ids: proxied}
+	for _, i := range proxied {
+		c := &proxyClient{ID: i, send: make(chan *com.Packet, 256), wake: make(chan struct{}, 1)}
+		p.clients[i.Hash()] = c
+		h.pcs = append(h.pcs, c)
+	}
+	s.proxy = &proxyBase{Proxy: p}
+	return h
+}
+func (h *C03Host) World() *C03World { return h.w }
+
+// Receive is what the host's Session does with a packet read from its connection.
+func (h *C03Host) Receive(n *com.Packet) error { return receive(h.s, nil, n) }
+
+// Queued empties the queue of proxied client k and returns what was in it, in order.
+func (h *C03Host) Queued(k int) []*com.Packet {
+	var r []*com.Packet
+	for len(h.pcs[k].send) > 0 {
+		r = append(r, <-h.pcs[k].send)
+	}
+	return r
+}
